@@ -69,14 +69,14 @@ def one(rng):
             gl = gram.file_lines(dest + ".pmcfg")
             ll = gram.file_lines(dest + ".lex") if not lig else None
             out = gram.enc_lines(gl) + " # " + (gram.enc_lines(ll) if ll is not None else "none")
-            lines.append(Line("corr", "write_pmcfg", ["t" if lig else "f", genc, lenc], out))
+            lines.append(Line("corr", "write_pmcfg", ["t" if lig else "f", genc, lenc], out, canon="canon_pmcfg"))
             lines.append(Line("pred", "P.C09.pmcfg", ["t" if lig else "f", genc, lenc, gram.enc_lines(gl),
                                                       gram.enc_lines(ll) if ll is not None else "-"]))
         elif fmt == "rcg":
             gl = gram.file_lines(dest + ".rcg")
             ll = gram.file_lines(dest + ".lex") if not lig else None
             out = gram.enc_lines(gl) + " # " + (gram.enc_lines(ll) if ll is not None else "none")
-            lines.append(Line("corr", "write_rcg", ["t" if lig else "f", genc, lenc], out))
+            lines.append(Line("corr", "write_rcg", ["t" if lig else "f", genc, lenc], out, canon=gram.canon_line_files(lexfiles=(1,))))
             if lig:
                 open(dest + ".lex", "w").close()
             try:
@@ -102,7 +102,7 @@ def one(rng):
                 files = [gram.file_lines(dest + ext) for ext in (".gram", ".lex", ".start", ".oc", ".OC")]
                 files[2] = sorted(files[2], key=lambda s: [ord(c) for c in s])
                 out = " # ".join(gram.enc_lines(f) for f in files)
-                lines.append(Line("corr", "write_lopar", [genc, lenc], out))
+                lines.append(Line("corr", "write_lopar", [genc, lenc], out, canon=gram.canon_line_files(lexfiles=(1,))))
                 lines.append(Line("pred", "P.C09.lopar", [genc, lenc, out]))
                 if not cf:
                     l = Line("pred", "P.C09.lopar", ["", "", ""], note="non-context-free grammar accepted")
@@ -169,8 +169,8 @@ def cli_case(rng):
                         mo.setdefault('h', 2)
                     gA = grammar.binarize(gA, reordering=REORD[gtype], markov_opts=mo)
                 grammaroutput.rcg(gA, lexA, sc.path("api"), "utf-8")
-            same_api = gram.file_lines(sc.path("api.rcg")) == gram.file_lines(sc.path("g1.rcg")) and \
-                gram.file_lines(sc.path("api.lex")) == gram.file_lines(sc.path("g1.lex"))
+            same_api = sorted(gram.file_lines(sc.path("api.rcg"))) == sorted(gram.file_lines(sc.path("g1.rcg"))) and \
+                sorted(gram.file_lines(sc.path("api.lex"))) == sorted(gram.file_lines(sc.path("g1.lex")))
             if not same_api:
                 l0 = Line("pred", "P.C09.rcg", ["f", "", "", "", ""], note="`treetools grammar %s %s` differs from the API pipeline" % (gtype, " ".join(mkv)))
                 l0.expect = "command-line-grammar-must-equal-api-grammar"
@@ -180,12 +180,13 @@ def cli_case(rng):
             if gtype != "treebank" and mkv:
                 mo_enc = "%d,%d,%s" % (mo['v'], mo['h'], "t" if 'nofanout' in mo else "f")
             lines.append(Line("corr", "grammar_cli", ["-", gtype, mo_enc, "rcg", "f", proto.enc_s(text)],
-                              gram.enc_lines(gram.file_lines(sc.path("g1.rcg"))) + " # " + gram.enc_lines(gram.file_lines(sc.path("g1.lex")))))
+                              gram.enc_lines(gram.file_lines(sc.path("g1.rcg"))) + " # " + gram.enc_lines(gram.file_lines(sc.path("g1.lex"))),
+                              canon=gram.canon_line_files(lexfiles=(1,))))
         ok1 = rc == 0
         rc2, _, err2 = cli.run_cli(["grammar", sc.path("g1"), sc.path("g2"), "treebank", "--src-format", "rcg",
                                     "--dest-format", "rcg"])
-        same = ok1 and rc2 == 0 and gram.file_lines(sc.path("g1.rcg")) == gram.file_lines(sc.path("g2.rcg")) and \
-            gram.file_lines(sc.path("g1.lex")) == gram.file_lines(sc.path("g2.lex")) and len(gram.file_lines(sc.path("g1.rcg"))) > 0
+        same = ok1 and rc2 == 0 and sorted(gram.file_lines(sc.path("g1.rcg"))) == sorted(gram.file_lines(sc.path("g2.rcg"))) and \
+            sorted(gram.file_lines(sc.path("g1.lex"))) == sorted(gram.file_lines(sc.path("g2.lex"))) and len(gram.file_lines(sc.path("g1.rcg"))) > 0
         l = Line("pred", "P.C09.rcg", ["f", "", "", "", ""], note="grammar file as input: rc=%d rc2=%d" % (rc, rc2))
         l.expect = "ok" if same else "grammar-file-input-must-yield-that-grammar"
         if not same:
